@@ -19,9 +19,18 @@ No open finding.  Recorded here:
    `LiteralOnFirstLine` and "not inside/in front of a BOM" of the proved theorem.  None of them is a defect
    with respect to C11: a character constant that contains a new-line is undefined (6.4.4.4), a BOM is not part
    of the standard's source character set, `\u005c` is a constraint violation (6.4.3p2).
+ * (third session) the latitude of `C11_ppnumber_maximal`: with the full identifier-nondigit class of 6.4.2.1 (`_` included) the
+   scan of tokenize() is not maximal — `1_0` is one pp-number for C11 and `1` followed by the identifier `_0` for chibicc.
+   No valid constant contains `_`; the difference shows only when `_0` is a macro name (stringification / expansion).
+ * (third session, reported to the lead as an accepts-invalid observation, outside the quantifier of C11 which ranges over
+   literal spellings): because libc `strtoul` in base 16 skips a `0x` prefix of its own, `convert_pp_int` accepts the pp-number
+   `0x0x1f` (not an integer constant; gcc: "invalid suffix") as the `int` 31; the digit-loop model of `strtoul` that the hand
+   model uses answers "not an integer constant" there, the libc model `strtoulC` answers what the real code answers.
 -/
 import ChibiVerif.Model.Literals
 import ChibiVerif.Model.Text
+import ChibiVerif.Model.PpNumber
+import ChibiVerif.Spec.PpNumberSpec
 
 namespace ChibiVerif.Findings.C11
 open ChibiVerif.Gen.Literals
@@ -110,5 +119,23 @@ theorem C11_text_transparent_as_first_stated_is_false : ¬ TransparentAsFirstSta
   have h1 := h [39#8] [10#8, 39#8] (by decide) (by decide) (by decide) (by decide) (by decide)
   rw [C11_splice_witness_char.1, C11_splice_witness_char.2] at h1
   exact absurd h1 (by decide)
+
+-- ------------------------------------------------------------------ pp-numbers: the stated latitude; strtoul's own 0x prefix
+
+open ChibiVerif.Spec.PpNumber in
+/-- **latitude of `C11_ppnumber_maximal`.**  `1_0` is a pp-number of 6.4.8 when identifier-nondigit includes `_` (6.4.2.1), and the
+    translated scan stops after `1` -/
+theorem C11_ppnumber_latitude :
+    PPNumber isNondigitC11 [0x31#8, 0x5F#8, 0x30#8] ∧
+    ChibiVerif.Gen.PpNum.ppNumberStart [0x31#8, 0x5F#8, 0x30#8] 0 = true ∧
+    ChibiVerif.Gen.PpNum.ppNumberEnd [0x31#8, 0x5F#8, 0x30#8] 0 = 1 := by
+  refine ⟨?_, by decide, by decide⟩
+  exact .appDigit [0x31#8, 0x5F#8] 0x30#8 (.appNondigit [0x31#8] 0x5F#8 (.digit 0x31#8 (by decide)) (by decide)) (by decide)
+
+/-- `0x0x1f`: the translated `convert_pp_int` with the libc model of `strtoul` accepts it as the `int` 31 (so does the real
+    code: `int 307830783166` of the check's protocol); with the digit loop of the hand model it is not an integer constant -/
+theorem C11_strtoul_second_prefix :
+    ChibiVerif.PpNumber.convertPpIntC [48#8, 120#8, 48#8, 120#8, 0x31#8, 0x66#8] 0 6 = some (31#64, .ty_int) ∧
+    convertPpInt [48#8, 120#8, 48#8, 120#8, 0x31#8, 0x66#8] = none := by decide
 
 end ChibiVerif.Findings.C11
